@@ -244,6 +244,18 @@ def _norm_block(stmts: List[ast.stmt]) -> List[ast.stmt]:
             s.finalbody = _norm_block(s.finalbody)
             out.append(s)
         else:
+            # `t = a if c else b` / `return a if c else b` IS `if c: t = a  else: t = b` (value and test are evaluated before any target expression):
+            # the statement form is the normal form, so that sibling-branch rules see both spellings alike
+            v0 = getattr(s, "value", None)
+            if isinstance(v0, ast.IfExp) and (isinstance(s, ast.Return) or (isinstance(s, ast.Assign) and len(s.targets) == 1) or isinstance(s, ast.AugAssign)):
+                def mk(val):
+                    c_ = clone(s)
+                    c_.value = val
+                    return c_
+                new_if = ast.If(test=v0.test, body=[mk(v0.body)], orelse=[mk(v0.orelse)])
+                ast.copy_location(new_if, s)
+                stmts = stmts[:i] + [ast.fix_missing_locations(new_if)] + stmts[i + 1:]
+                continue
             for f in ("value", "test"):
                 v = getattr(s, f, None)
                 if isinstance(v, ast.IfExp):
